@@ -126,6 +126,13 @@ def pair_st(draw, tier):
                 case["std_" + name] = True
         if draw(st.booleans()):
             bottom["action"] = top["action"]
+        if which == "bottom" and draw(st.booleans()):
+            # an extended entry above that holds the source of the standard-form entry but names ONE destination
+            top.update(proto=0, pn=0, sp=None, dp=None, flags=[], action=bottom["action"],
+                       src=draw(st.sampled_from([{"k": "any", "b": 0, "w": R.ALL1}, dict(bottom["src"])])),
+                       dst=G.native_addr((draw(G.base_st()), draw(st.sampled_from([0, 0xFF]))), platform))
+            top["dst"]["b"] &= ~top["dst"]["w"] & R.ALL1
+            top.pop("lf", None)
     return case
 
 
